@@ -10,7 +10,7 @@ UNIT = {
              'the BAOA integrator arithmetic, Langevin noise and the reflection branch are executed (all comparison outcomes explored) but only force routing, reported total force, saved state and coupling energy are specified'],
  'tasks': [
   {'id': 'update_extended_Lagrangian', 'properties': ['C17'], 'slices': ['update_extended_Lagrangian'], 'harness': 'h_update_extended_Lagrangian', 'enforce': 'k_update_extended_Lagrangian',
-   'replace': ['k_dt', 'k_set_value'], 'unwind': 70, 'object_bits': 10, 'thorough_only': True, 'timeout': 3000,
+   'replace': ['k_dt', 'k_set_value'], 'unwind': 70, 'object_bits': 10, 'timeout': 1200,
    'mutants': [('f_system = (-0.5 * ext_force_k) * this->dist2_lgrad(x_ext, x);', 'f_system = (-1.0 * ext_force_k) * (x_ext - x);'), ('f        = -1.0 * f_system;', 'f        = f_system;'),
                ('ft_reported = f_system;', 'ft_reported = f_ext;'), ('prev_x_ext = x_ext;', ''), ('n_timesteps != 0 && n_timesteps != time_step_factor', 'n_timesteps != time_step_factor')]},
  ],
